@@ -2288,3 +2288,92 @@ func (c *cli) ruleLibrarySelect(r *Report) {
 func (c *cli) isErrRet(ret *ssa.Return) bool {
 	return newErrAnalysis(c.w).isErrorReturn(ret)
 }
+
+// rulePatchedRender — R-CLI/R. The document `jd -p` prints is the patched
+// document rendered under the options of the command line: every Json()/Yaml()
+// call in package main whose receiver is (derived from) the result of a Patch
+// call is handed an option list that is not empty by construction — a
+// parameter of the routine or a value derived from the flag parser — so that
+// `-set`/`-mset`/`-setkeys` shape the printed arrays exactly as the library
+// renders them for those options.
+func (c *cli) rulePatchedRender(r *Report) {
+	const rule = "R-CLI/R"
+	n := 0
+	for _, fn := range c.fns {
+		d := NewDeriv(c.w, fn)
+		ord := 0
+		allInstrs(fn, func(in ssa.Instruction) {
+			call, ok := in.(*ssa.Call)
+			if !ok || !call.Call.IsInvoke() {
+				return
+			}
+			name := call.Call.Method.Name()
+			if name != "Json" && name != "Yaml" {
+				return
+			}
+			fromPatch := false
+			var up func(v ssa.Value, depth int)
+			seenUp := map[ssa.Value]bool{}
+			up = func(v ssa.Value, depth int) {
+				if depth > 8 || seenUp[v] {
+					return
+				}
+				seenUp[v] = true
+				switch x := strip(v).(type) {
+				case *ssa.Extract:
+					up(x.Tuple, depth+1)
+				case *ssa.Phi:
+					for _, e := range x.Edges {
+						up(e, depth+1)
+					}
+				case *ssa.Call:
+					if x.Call.IsInvoke() && x.Call.Method.Name() == "Patch" {
+						fromPatch = true
+					}
+					if sf := staticCallee(x); sf != nil && sf.Name() == "Patch" {
+						fromPatch = true
+					}
+				}
+			}
+			up(call.Call.Value, 0)
+			if !fromPatch {
+				return
+			}
+			n++
+			ord++
+			key := c.key(fn, fmt.Sprintf("patched-document-rendered-with-options#%d", ord))
+			okOpts := false
+			if len(call.Call.Args) == 1 {
+				a := strip(call.Call.Args[0])
+				switch x := a.(type) {
+				case *ssa.Parameter:
+					okOpts = true
+				case *ssa.Const:
+					okOpts = false
+				default:
+					_ = x
+					// derived from a parameter or from a call (the flag parser)
+					for v := range d.Visited(a) {
+						switch v.(type) {
+						case *ssa.Parameter, *ssa.Call:
+							okOpts = true
+						}
+					}
+					if sl, isSl := a.(*ssa.Slice); isSl {
+						if al, isAl := sl.X.(*ssa.Alloc); isAl {
+							if arr, isArr := al.Type().(*types.Pointer).Elem().Underlying().(*types.Array); isArr && arr.Len() == 0 {
+								okOpts = false
+							}
+						}
+					}
+				}
+			}
+			r.Check(okOpts, rule, key, c.w.Pos(call.Pos()),
+				"the patched document is rendered with the option list of the command line",
+				"the patched document is rendered without the command line's options: with -set/-mset/-setkeys the array shape printed by -p differs from what the library renders for those options")
+		})
+	}
+	if n < 2 {
+		r.Bad(rule, c.tag+":patched-render", "-", fmt.Sprintf("only %d rendering(s) of a patched document found in package main", n))
+	}
+}
